@@ -376,7 +376,7 @@ for iname, inner in INNER.items():
     for wname, w in cands.items():
         try: d = beartype(w)
         except Exception as e: continue      # functools.wraps copies the annotations: a generator wrapper annotated `-> int` is rightly refused at decoration time
-        if kind(d) != kind(w): bad.append((iname, wname, f'kind {kind(w)} became {kind(d)}' + (' [iterable coroutine flag lost: the result of calling it is no longer awaitable]' if kind(w)[3] and not kind(d)[3] else '')))
+        if kind(d) != kind(w): bad.append((iname, wname, f'kind {kind(w)} became {kind(d)}' + (' [ONLY the iterable coroutine flag lost: the result of calling it is no longer awaitable]' if kind(w)[:3] == kind(d)[:3] else ' [the kind inspect reports CHANGED]')))
 print(bad)
 sys.exit(1 if bad else 0)
 """
@@ -389,7 +389,7 @@ def kinds_bounded(rep):
     p = subprocess.run([sys.executable, '-c', src], capture_output=True, text=True, timeout=120)
     if p.returncode not in (0, 1): rep.error('C08 kinds_bounded harness: ' + (p.stdout + p.stderr)[-500:]); return
     if p.returncode == 1:
-        only_itercoro = 'iterable coroutine flag lost' in p.stdout and p.stdout.count("kind (") == p.stdout.count('iterable coroutine flag lost')
+        only_itercoro = 'ONLY the iterable coroutine flag lost' in p.stdout and 'the kind inspect reports CHANGED' not in p.stdout
         rep.add('C08.kinds.bounded.kind_preserved' + ('.types_coroutine' if only_itercoro else ''), 'refuted', backend='runtime-contract', where=p.stdout.strip()[-300:], solver_output='bounded run-time contract (not a proof)',
                 replay=dict(reproduced=True, detail=p.stdout.strip()[-300:]), replay_script=("os.environ['VERIF_REPO'] = %r\nimport pyvc; pyvc.use_repo()\n" % REPO) + KIND_SRC)
     rep.bounded.append(dict(kind='kind of the decorated callable == kind of the callable it decorates (bounded stand-in, NOT counted as proved)', cases=20, failing=int(p.returncode == 1),
